@@ -427,7 +427,8 @@ impl KeyText for syn::Ident {
 }
 impl KeyText for syn::Path {
     fn key_text(&self) -> String {
-        darling::util::path_to_string(self)
+        // the key's identity, leading `::` included (two paths that differ only there are two keys)
+        quote::ToTokens::to_token_stream(self).to_string().replace(' ', "")
     }
 }
 
